@@ -483,6 +483,62 @@ class Ctx:
             self.bins[tag] = go_test_bin(self.prop, self.prop.packages[tag])
         return self.bins[tag]
 
+    def _run_go_once(self, tag, lines, label, timeout):
+        prop = self.prop
+        cp = os.path.join(self.work, "%s.%s.cases" % (label, tag))
+        with open(cp, "w") as f:
+            f.write("\n".join(lines) + "\n")
+        go = os.path.join(self.work, "%s.%s.go.out" % (label, tag))
+        try:
+            run_go(self.bin(tag), prop.packages[tag], cp, go, timeout=timeout, extra_env=prop.go_env)
+        except HarnessError as ex:
+            return None, str(ex)
+        return read_results(go), None
+
+    def _run_go_resilient(self, tag, lines, label):
+        """Run the Go side on `lines`.  When the test binary dies or hangs as a whole (a panic in a goroutine
+        the harness cannot recover, a deadlock, os.Exit), the culprit case is isolated by bisection, confirmed
+        by running it alone twice, and answered `(crash)` -- which the model never answers, so it is reported
+        as a disagreement with that case as the replay.  A failure that cannot be pinned on one reproducible
+        case stays what it is: a failure of our own apparatus (ERROR)."""
+        res, err = self._run_go_once(tag, lines, label, self.prop.go_timeout)
+        if err is None:
+            return res
+        first_err = err
+        short = min(self.prop.go_timeout, 150)
+        out = {}
+        remaining = list(lines)
+        for _ in range(3):
+            def isolate(ls):
+                if len(ls) == 1:
+                    r, e = self._run_go_once(tag, ls, label + ".iso", short)
+                    if e is None:
+                        return None
+                    r, e = self._run_go_once(tag, ls, label + ".iso", short)
+                    return ls[0] if e is not None else None
+                a, b = ls[:len(ls) // 2], ls[len(ls) // 2:]
+                r, e = self._run_go_once(tag, a, label + ".iso", short)
+                if e is not None:
+                    return isolate(a)
+                r, e = self._run_go_once(tag, b, label + ".iso", short)
+                if e is not None:
+                    return isolate(b)
+                return None
+            bad = isolate(remaining)
+            if bad is None:
+                raise HarnessError(first_err)
+            cid = bad.split(" ")[1].rstrip(")")           # ("kind" id payload...)
+            out[cid] = "(#6372617368)"                    # = vCrash() of the Go harness / sx_crash of the model
+            self.notes.setdefault("go_side_died_on", []).append(bad[:300])
+            remaining = [l for l in remaining if l is not bad]
+            if not remaining:
+                return out
+            res, err = self._run_go_once(tag, remaining, label, self.prop.go_timeout)
+            if err is None:
+                out.update(res)
+                return out
+        raise HarnessError(first_err)
+
     def eval_both(self, cases, label="batch"):
         """cases: list of [kind, payload...] -> (go_results, model_results) as lists of text"""
         prop = self.prop
@@ -499,12 +555,9 @@ class Ctx:
         gres = {}
         tg = 0.0
         for tag, lines in by_tag.items():
-            cp = os.path.join(self.work, "%s.%s.cases" % (label, tag))
-            with open(cp, "w") as f:
-                f.write("\n".join(lines) + "\n")
-            go = os.path.join(self.work, "%s.%s.go.out" % (label, tag))
-            tg += run_go(self.bin(tag), prop.packages[tag], cp, go, timeout=prop.go_timeout, extra_env=prop.go_env)
-            gres.update(read_results(go))
+            t1 = time.time()
+            gres.update(self._run_go_resilient(tag, lines, label))
+            tg += time.time() - t1
         self.notes["t_model_s"] = round(self.notes.get("t_model_s", 0) + tm, 2)
         self.notes["t_go_s"] = round(self.notes.get("t_go_s", 0) + tg, 2)
         g = [gres.get(str(i)) for i in range(len(cases))]
